@@ -68,6 +68,7 @@ type pipe struct {
 // Net owns every pipe and implements simrt.Hook.
 type Net struct {
 	pipes     []*pipe
+	conns     []*Conn
 	Log       []Event
 	KeepLog   bool
 	Stats     Stats
@@ -238,7 +239,19 @@ func (n *Net) Pair(aname, bname string) (*Conn, *Conn) {
 	ab := &pipe{id: len(n.pipes), name: aname + ">" + bname, werrAt: -1}
 	ba := &pipe{id: len(n.pipes) + 1, name: bname + ">" + aname, werrAt: -1}
 	n.pipes = append(n.pipes, ab, ba)
-	return &Conn{net: n, rd: ba, wr: ab, name: aname}, &Conn{net: n, rd: ab, wr: ba, name: bname}
+	a, b := &Conn{net: n, rd: ba, wr: ab, name: aname}, &Conn{net: n, rd: ab, wr: ba, name: bname}
+	n.conns = append(n.conns, a, b)
+	return a, b
+}
+
+// PeerOf returns the other endpoint of c's connection.
+func (n *Net) PeerOf(c *Conn) *Conn {
+	for _, x := range n.conns {
+		if x != c && x.rd == c.wr {
+			return x
+		}
+	}
+	return nil
 }
 
 // --- configuration (called by the harness before or during a run) ---
